@@ -215,29 +215,18 @@ def body(chk, db, cfgname):
         ge = db.fn("Pomerol::Hamiltonian::computeGroundEnergy", nparams=0)
         gectx = Ctx(ge, db)
         site = "Pomerol::Hamiltonian::computeGroundEnergy"
-        asg = [j for j, n in ge.walk(ge.body) if n["k"] == "bin" and n["op"] == "=" and gectx.key(n["l"]) == fld("Pomerol::Hamiltonian::GroundEnergy")]
-        good = False
-        if len(asg) == 1:
-            rk = gectx.key(ge.nodes[asg[0]]["r"], inline=False)
-            if rk[0] == "mcall" and rk[1].endswith("::minCoeff") and rk[2][0] == "var":
-                vec = rk[2]
-                fills = [m for m in gectx.mut.get(vec[1], [])]
-                for m in fills:
-                    mn = ge.nodes[m]
-                    if mn["k"] == "bin" and mn["op"] == "=":
-                        shp = full_index_loop(ge, gectx, m, [("mcall", "std::vector::size", fld("Pomerol::Hamiltonian::parts")), ("ctor", "Pomerol::BlockNumber", ("mcall", "std::vector::size", fld("Pomerol::Hamiltonian::parts"))),
-                                                              ("mcall", "Pomerol::StatesClassification::NumberOfBlocks", fld("Pomerol::Hamiltonian::S"))])
-                        rr = gectx.key(mn["r"])
-                        if shp is not None and rr[0] == "mcall" and rr[1] == "Pomerol::HamiltonianPart::getMinimumEigenvalue" and key_contains(rr, lambda y: y[:2] == shp["var"][:2]) and \
-                                key_contains(gectx.key(mn["l"], inline=False), lambda y: y[:2] == shp["var"][:2]):
-                            good = True
+        from checks.lehmann import ground_energy_verdict
+        gv, gwhy = ground_energy_verdict(db)
+        if gv == "unknown":
+            raise AnalysisBroken("Hamiltonian::computeGroundEnergy: " + gwhy)
+        good = gv == "ok"
         mev = db.fn("Pomerol::HamiltonianPart::getMinimumEigenvalue", nparams=0)
         mctx = Ctx(mev, db)
         mins = [j for j, n in mev.walk(mev.body) if n["k"] == "return" and mctx.key(n["sub"]) == ("mcall", "Eigen::DenseBase::minCoeff", fld("Pomerol::HamiltonianPart::Eigenvalues"))]
         if good and mins:
             r2.ok(site, ge.loc(), "GroundEnergy = min over all blocks of the block's minimal eigenvalue, hence E - GroundEnergy >= 0 and the exp argument is <= 0 for beta > 0", cfgname)
         else:
-            r2.bad(site, ge.loc(), "the ground energy is not the minimum over ALL blocks of the blocks' minimal eigenvalues: weights exp(-beta(E-E0)) can overflow", cfgname)
+            r2.bad(site, ge.loc(), "the ground energy is not the minimum over ALL blocks of the blocks' minimal eigenvalues: weights exp(-beta(E-E0)) can overflow (%s)" % (gwhy if not good else "getMinimumEigenvalue is not Eigenvalues.minCoeff()"), cfgname)
 
         # --- every exp() in the weight computation: invariant under a common energy shift, argument <= 0
         cu = db.fn(DMP + "::computeUnnormalized", nparams=0)
@@ -297,17 +286,21 @@ def body(chk, db, cfgname):
         acc = [j for j, n in f.walk(f.body) if n["k"] == "bin" and n["op"] == "+="]
         site = DMP + "::getAverageEnergy"
         good = False
+        shape_ok = False
         if len(acc) == 1:
             shp = full_index_loop(f, ctx, acc[0], wsize)
             if shp is not None:
+                shape_ok = True
                 s_ = shp["var"]
                 F = Formula()
                 w = F.name_atom(("op", "()", W, s_), "w_s")
                 e = F.name_atom(("mcall", "Pomerol::HamiltonianPart::getEigenValue", hp, s_), "E_s")
-                got = F.conv(ctx.key(f.nodes[acc[0]]["r"], inline=False))
+                got = F.conv(ctx.key(f.nodes[acc[0]]["r"]))
                 good = F.equal(got, w * e) and starts_zero_and_returned(f, ctx, acc[0])
         if good:
             r3.ok(site, f.loc(), "sum_s weights(s)*E_s", cfgname)
+        elif not shape_ok:
+            unk(f, "the average energy is not accumulated by one += inside a full loop over the states of the block")
         else:
             r3.bad(site, f.loc(), "average energy is not sum over all states s of weights(s)*getEigenValue(s)", cfgname)
         occ = [(DMP + "::getAverageOccupancy", 0, "count"), (DMP + "::getAverageOccupancy", 1, "test"), (DMP + "::getAverageDoubleOccupancy", 2, "pair")]
